@@ -632,6 +632,106 @@ void t_timer_manager_specs(Src &s, Case &c)
     }
 }
 
+// How the callback is bound (delegate.h) and what it is handed: a plain function, a function with a context pointer (null
+// included), a member function; bound arguments of class type (a name) next to an int. Every firing must deliver the bound
+// values, the 2nd and 10th firing as much as the first.
+struct CbRec
+{
+    int kind;
+    const void *ctx;
+    std::string name;
+    int num;
+};
+static std::vector<CbRec> g_cb;
+static void cb_plain(std::string name, int num) { g_cb.push_back(CbRec{0, nullptr, name, num}); }
+static void cb_ext(void *ctx, std::string name, int num) { g_cb.push_back(CbRec{1, ctx, name, num}); }
+struct CbObj
+{
+    int tag;
+    void fire(std::string name, int num) { g_cb.push_back(CbRec{2, this, name, num}); }
+};
+void t_timer_callbacks(Src &s, Case &c)
+{
+    typedef igris::timer<std::string, int> Tim;
+    auto *mgr = new igris::timer_manager; // leaked on failure
+    static int ctx_cell;
+    CbObj *obj = new CbObj{7};
+    int n = (int)s.range(1, 4);
+    struct W
+    {
+        int kind;
+        const void *ctx;
+        std::string name;
+        int num;
+        int64_t interval;
+    };
+    std::vector<W> want;
+    std::vector<Tim *> tims;
+    for (int i = 0; i < n; i++)
+    {
+        int kind = (int)s.below(4);
+        std::string name = s.coin() ? std::string("t") + std::to_string(i) : std::string(24 + (size_t)i, (char)('A' + i)); // short and heap-allocated names
+        int num = (int)s.biased_int<int16_t>();
+        int64_t interval = (int64_t)s.pick({1, 2, 5, 10});
+        Tim *t;
+        const void *ctx = nullptr;
+        switch (kind)
+        {
+        case 0:
+            t = new Tim(igris::make_delegate(cb_plain), std::string(name), int(num));
+            break;
+        case 1:
+            ctx = &ctx_cell;
+            t = new Tim(igris::make_delegate(cb_ext, (void *)&ctx_cell), std::string(name), int(num));
+            break;
+        case 2:
+            t = new Tim(igris::make_delegate(cb_ext, (void *)nullptr), std::string(name), int(num)); // no context wanted
+            kind = 1;
+            break;
+        default:
+            ctx = obj;
+            t = new Tim(igris::make_delegate(&CbObj::fire, obj), std::string(name), int(num));
+            kind = 2;
+        }
+        tims.push_back(t);
+        want.push_back(W{kind, ctx, name, num, interval});
+        mgr->plan(*t, 0, interval);
+        c.log("t%d: %s, args (\"%s\", %d), every %lld; ", i, kind == 0 ? "plain function" : kind == 2 ? "member function" : ctx ? "function+context" : "function+null context",
+              name.c_str(), num, (long long)interval);
+    }
+    int64_t now = 0;
+    size_t firings = 0;
+    for (int k = 0, steps = (int)s.range(1, 8); k < steps; k++)
+    {
+        now += (int64_t)s.pick({1, 3, 10, 25});
+        g_cb.clear();
+        mgr->exec(now);
+        c.log("exec(%lld): %zu firings; ", (long long)now, g_cb.size());
+        for (auto &r : g_cb)
+        {
+            bool ok = false;
+            for (auto &w : want)
+                ok |= w.kind == r.kind && w.ctx == r.ctx && w.name == r.name && w.num == r.num;
+            VP_CHECK(ok, "timer_callback_arguments", "exec(%lld): a callback of kind %d ran with context %p and arguments (\"%s\", %d), which no timer was given", (long long)now,
+                     r.kind, r.ctx, r.name.c_str(), r.num);
+        }
+        firings += g_cb.size();
+    }
+    // total firings: every timer catches up one firing per elapsed period
+    size_t total = 0;
+    for (auto &w : want)
+        total += (size_t)(now / w.interval);
+    VP_CHECK(firings == total, "timer_callback_count", "%zu callbacks ran up to t=%lld, the periods that elapsed are %zu", firings, (long long)now, total);
+    c.nontrivial = firings >= 2;
+    for (auto *t : tims)
+    {
+        t->unplan();
+        delete t;
+    }
+    delete mgr;
+    delete obj;
+}
+
 void t_timer_manager_big(Src &s, Case &c)
 {
     g_tm_scale = (int64_t)s.pick<int64_t>({1LL << 28, 1LL << 31, (1LL << 33) + 1});
@@ -660,6 +760,10 @@ VP_TARGET("timer_manager_u32", t_timer_manager_u32,
           "timer_manager_basic<timer_spec<uint32_t>> (unsigned 32-bit clock starting at 1000, just below 2^31 or just below the 2^32 wrap): plan with starts not later than now, "
           "unplan, exec with non-decreasing time; the (timer, deadline) firings of every exec equal those of a reference scheduler and come in deadline order; planned flags and "
           "deadlines after every operation; non-trivial = an exec fired at least two callbacks");
+VP_TARGET("timer_callbacks", t_timer_callbacks,
+          "igris::timer<std::string,int> bound to a plain function, a function with a context pointer (null included) or a member function, names short or heap-allocated: "
+          "1..4 periodic timers, 1..8 exec calls; every callback receives exactly the context and arguments some timer was given (on every firing, catch-up firings included) "
+          "and the number of firings equals the elapsed periods; non-trivial = at least two firings");
 VP_TARGET("timer_manager_specs", t_timer_manager_specs,
           "timer_manager_basic over other signed time bases: timer_spec<int64_t,int32_t> (64-bit clock on both sides of 2^31 and 2^32, 32-bit intervals), timer_spec<int32_t>, "
           "timer_spec<int64_t,int64_t>: plan(tim,start,interval), set_start + set_interval + plan(tim), unplan, exec with non-decreasing time; firings against a reference "
